@@ -26,11 +26,11 @@ CHECK = {
                     'each thread uses only its own pointer objects (the property\'s domain)',
                     'TSan reports are attributed to the library when a frame lies in src/memory.c or include/cstl/memory.h'],
     'runs': [
-        {'harness': 'memory_sched', 'sources': ['harness/memory_sched.c'], 'configs': both(['sched-asan']),
+        {'harness': 'memory_sched', 'sources': ['harness/memory_sched.c'], 'configs': both(['sched-asan', 'sched-rel-asan']),
          # fibres are created and destroyed per execution; ASan's fake stacks (stack-use-after-return) would be
          # mmap'ed and unmapped each time, which dominated the run time
          'env': {'ASAN_OPTIONS': 'detect_stack_use_after_return=0:halt_on_error=1:abort_on_error=0:exitcode=86:allocator_may_return_null=1:detect_leaks=0:handle_abort=0'}},
-        {'harness': 'memory_mt', 'sources': ['harness/memory_mt.c'], 'configs': both(['tsan'], ['tsan', 'sched-asan']), 'workers': 8},
+        {'harness': 'memory_mt', 'sources': ['harness/memory_mt.c'], 'configs': both(['tsan', 'tsan-rel'], ['tsan', 'tsan-rel', 'sched-asan']), 'workers': 8},
     ],
     'evidence': _ev,
 }
